@@ -218,11 +218,44 @@ class Report(object):
                 self.extra[k] = v
 
 
+def call_shard(func, arg):
+    """func(arg), except that an exception raised INSIDE the library (innermost
+    frame under the repository's src/) and not expected by the harness at
+    that call is reported as a violation instead of aborting the run: the
+    harness only passes inputs on which the property promises a result.
+    Exceptions raised by harness code itself stay harness errors."""
+    try:
+        return func(arg)
+    except (OracleBroken, Nondeterminism, Hang):
+        raise
+    except Exception as e:
+        tb = traceback.extract_tb(e.__traceback__)
+        last = tb[-1]
+        if not os.path.abspath(last.filename).startswith(
+                os.path.abspath(REPO_SRC)):
+            raise
+        here = os.path.dirname(os.path.abspath(__file__))
+        hf = [f for f in tb if os.path.abspath(f.filename).startswith(here)]
+        at = "%s:%d" % (os.path.basename(hf[-1].filename), hf[-1].lineno) \
+            if hf else "?"
+        sh = Shard()
+        sh.n = sh.nt = 1
+        sh.hist["fail:library-raised"] += 1
+        sh.violation(
+            "shard-exception", "library-raised:" + type(e).__name__,
+            dict(shard=func.__name__, harness_call=at,
+                 library_site="%s:%s" % (os.path.basename(last.filename),
+                                         last.name)),
+            "normal return on an input for which the property promises a "
+            "result", ("%s: %s" % (type(e).__name__, e))[:300])
+        return sh
+
+
 def _worker(job):
     func, part, arg = job
     try:
         start_watchdog()
-        sh = func(arg)
+        sh = call_shard(func, arg)
         for v in sh.viol:
             v["shard"] = [func.__module__, func.__name__, arg]
         res = sh.pack()
@@ -379,7 +412,7 @@ def _shard_child(conn, modname, fname, arg):
     try:
         import importlib
         fn = getattr(importlib.import_module(modname), fname)
-        sh = fn(arg)
+        sh = call_shard(fn, arg)
         conn.send([dict(check=v["check"], cls=v["cls"],
                         case=jsonable(v["case"]),
                         expected=jsonable(v.get("expected")),
@@ -401,7 +434,7 @@ def replay_shard(shard, check, cls, case, in_process=False):
         viols = [dict(check=v["check"], cls=v["cls"], case=jsonable(v["case"]),
                       expected=jsonable(v.get("expected")),
                       observed=jsonable(v.get("observed")))
-                 for v in fn(arg).viol]
+                 for v in call_shard(fn, arg).viol]
     else:
         mp = multiprocessing.get_context("fork")
         a, b = mp.Pipe()
@@ -469,7 +502,7 @@ def finish(ctx, report, level, replay_fn=None):
     for v in chosen:
         if replay_fn is not None:
             case = unjson(jsonable(v["case"]))
-            if v["check"] == "mixed":
+            if v["check"] in ("mixed", "shard-exception"):
                 again = None             # only meaningful as a whole sequence
             else:
                 again = _isolated_replay(replay_fn, v["check"], case,
